@@ -5,8 +5,8 @@ Steps: scratch worktree of /repo HEAD -> overlay -> demo must PASS; apply patch 
 -> demo must FAIL, test-suite must give 36 passed.  Worktree and overlays are removed."""
 import json, os, shutil, subprocess, sys, tempfile
 pid, k = sys.argv[1], sys.argv[2]
-src = "/tmp/wt/%s/out/%s" % (pid, k)
-dst = "/verif/seeded/%s-%s" % (pid, k)
+src = "%s/%s/out/%s" % (os.environ.get("SEED_ROOT", "/tmp/wt2"), pid, k)
+dst = "/verif/seeded/%s%s-%s" % (os.environ.get("SEED_PREFIX", ""), pid, k)
 wt = tempfile.mkdtemp(prefix="seedwt-", dir="/var/tmp")
 os.rmdir(wt)
 def sh(cmd, **kw):
